@@ -99,27 +99,47 @@ end Orbit
 namespace Orbit
 
 /-- One head of `Load(amount)`: `NewFromEntryHash(head, length = amount)` gives a log over the
-fetched entries (heads = `FindHeads`), which is joined with `size = amount`. `fetch h` is the
-bounded Fetcher of go-ipfs-log (a parameter; contract in DESIGN §7). -/
+fetched entries (heads = `FindHeads`), which is joined with a trim only when one is needed
+(`size = amount` if the merged log would exceed it, else `-1`: after the `fix:` commit — the pinned
+tree passed `amount` unconditionally, see `loadHeadPinned`). `fetch h` is the bounded Fetcher of
+go-ipfs-log (a parameter; contract in DESIGN §7). -/
 def loadHead (acl : Acl) (fetch : Nat → OMap) (amount : Int) (L : Log) (h : Nat) : Except Err Log :=
   let l := logOfEntries L.id (fetch h)
-  match joinSize acl.canAppend L l.entries l.heads l.id amount with
+  let merged : Int := L.entries.length + (l.entries.filter (fun e => !has L.entries e.hash)).length
+  let size : Int := if amount > -1 && amount ≥ merged then -1 else amount
+  match joinSize acl.canAppend L l.entries l.heads l.id size with
   | .ok L' => .ok L'
   | .error .panic => .error .panic
   | .error _ => .ok L            -- a failed join is ignored by `Load`
 
-def loadHeads (acl : Acl) (fetch : Nat → OMap) (amount : Int) : Log → List Nat → Except Err Log
+/-- the pinned tree: `Join(l, amount)` whatever the sizes (finding F11) -/
+def loadHeadPinned (acl : Acl) (fetch : Nat → OMap) (amount : Int) (L : Log) (h : Nat) : Except Err Log :=
+  let l := logOfEntries L.id (fetch h)
+  match joinSize acl.canAppend L l.entries l.heads l.id amount with
+  | .ok L' => .ok L'
+  | .error .panic => .error .panic
+  | .error _ => .ok L
+
+def loadHeadsWith (step : Log → Nat → Except Err Log) : Log → List Nat → Except Err Log
   | L, [] => .ok L
-  | L, h :: hs => match loadHead acl fetch amount L h with
-    | .ok L' => loadHeads acl fetch amount L' hs
+  | L, h :: hs => match step L h with
+    | .ok L' => loadHeadsWith step L' hs
     | .error e => .error e
 
+def loadHeads (acl : Acl) (fetch : Nat → OMap) (amount : Int) : Log → List Nat → Except Err Log :=
+  loadHeadsWith (loadHead acl fetch amount)
+
+/-- the `amount` normalisation of `Load`: `maxHistory` replaces a non-positive amount when set; a
+non-positive amount then means "everything" (`-1`) -/
+def loadAmount (amount : Int) (maxHistory : Option Int) : Int :=
+  let a := if amount ≤ 0 then (match maxHistory with | some m => m | none => amount) else amount
+  if a ≤ 0 then -1 else a
+
 /-- `Load(amount)` on a freshly opened store: heads = cached local ++ remote heads, in that order
-(the goroutines are serialised by `muJoining`; the order is an input). `maxHistory` replaces a
-non-positive amount when set. -/
+(the goroutines are serialised by `muJoining`; the order is an input). -/
 def Store.load (acl : Acl) (s : Store) (fetch : Nat → OMap) (amount : Int) (maxHistory : Option Int := none) :
     Except Err Store :=
-  let amount := if amount ≤ 0 then (match maxHistory with | some m => m | none => amount) else amount
+  let amount := loadAmount amount maxHistory
   let heads := (s.localHeads.getD []) ++ (s.remoteHeads.getD [])
   match loadHeads acl fetch amount s.log heads with
   | .error e => .error e
@@ -129,6 +149,13 @@ def Store.load (acl : Acl) (s : Store) (fetch : Nat → OMap) (amount : Int) (ma
     -- at rest: every fetched entry and every head went through recalculateReplicationStatus
     let st := if heads.isEmpty then s.status else { progress := len, max := len }
     .ok { s with log := L', idx := idx, status := st }
+
+/-- the pinned `Load`: no normalisation of a zero amount, no size clamp -/
+def Store.loadPinned (acl : Acl) (s : Store) (fetch : Nat → OMap) (amount : Int) : Except Err Store :=
+  let heads := (s.localHeads.getD []) ++ (s.remoteHeads.getD [])
+  match loadHeadsWith (loadHeadPinned acl fetch amount) s.log heads with
+  | .error e => .error e
+  | .ok L' => .ok { s with log := L', idx := if heads.isEmpty then s.idx else updateIndex s.kind s.idx L' }
 
 /-- a restarted instance: same cache, everything else fresh -/
 def Store.reopened (s : Store) : Store :=
